@@ -217,11 +217,27 @@ register(
                      "canonical output; non-trivial = script places the counter, has callback behaviours and >=3 calls", nontrivial=nt_wrap)],
 )
 
+import reg_q as _rq  # noqa: E402
+
+
+def nt_qcopy(feat, script, out):
+    return ("qcopy" in script or "qmove" in script) and feat["calls_listener"] >= 1
+
+
 register(
     "C10",
-    lean_modules=["EventppVerif.Properties.C10"],
+    lean_modules=["EventppVerif.Properties.C10", "EventppVerif.Properties.C10q"],
+    fragments=["CtorFrag"],
     theorems=[],
-    suites=[cl_suite("copy", 300, 8000, rule="histories over 2-3 callback lists with copy-assignment, move-assignment, swap (also self) interleaved with listener changes, "
+    suites=[_rq.q_suite("qcopy", 250, 5000,
+                        [_rq.V("single", 0, 0, 0, 0, std="c++11"), _rq.V("multi", 1, 1, 1, 0, std="c++17")],
+                        [_rq.V("single", 0, 0, 0, 0, std="c++11"), _rq.V("multi", 1, 1, 1, 0, std="c++17"), _rq.V("multi", 0, 0, 0, 1, std="c++14"),
+                         _rq.V("spin", 1, 0, 0, 0, std="c++20"), _rq.V("single", 0, 1, 0, 0, cxx="clang++-14", std="c++11")],
+                        rule="queue / dispatcher histories in which the object is repeatedly replaced by a copy or a move of itself constructed by placement new over storage "
+                             "pre-filled with 0x00 / 0xFF / 0x5A / 0xA5, then used: listeners and filters must be the same in the same order, no event pending, emptyQueue true until something is "
+                             "enqueued, processing works; C++11 and C++17 builds (thorough: 14, 20, clang); non-trivial = a copy/move and >=1 listener call afterwards",
+                        nontrivial=nt_qcopy),
+            cl_suite("copy", 300, 8000, rule="histories over 2-3 callback lists with copy-assignment, move-assignment, swap (also self) interleaved with listener changes, "
                      "invocations and operations through handles issued before the copy/move/swap; distinct = distinct canonical output; non-trivial = at least one copy/move/swap and >=2 calls",
                      nontrivial=nt_copy)],
 )
